@@ -296,6 +296,69 @@ func guardOf(funcs map[string]*ast.FuncDecl, fd *ast.FuncDecl, pred, errName str
 	return false
 }
 
+// directCall: does the body contain a call of a function or method named name?
+func directCall(fd *ast.FuncDecl, name string) bool {
+	if fd == nil || fd.Body == nil {
+		return false
+	}
+	found := false
+	ast.Inspect(fd.Body, func(n ast.Node) bool {
+		if c, ok := n.(*ast.CallExpr); ok {
+			switch f := c.Fun.(type) {
+			case *ast.Ident:
+				found = found || f.Name == name
+			case *ast.SelectorExpr:
+				found = found || f.Sel.Name == name
+			}
+		}
+		return true
+	})
+	return found
+}
+
+// reachesCall: does fd call something named target, directly or through functions / methods on its own receiver
+// of the same package (to the given depth; function literals and `go` statements included)?
+func reachesCall(funcs map[string]*ast.FuncDecl, fd *ast.FuncDecl, target string, depth int) bool {
+	if fd == nil || fd.Body == nil {
+		return false
+	}
+	if directCall(fd, target) {
+		return true
+	}
+	if depth == 0 {
+		return false
+	}
+	recvT := ""
+	if fd.Recv != nil && len(fd.Recv.List) == 1 {
+		rt := fd.Recv.List[0].Type
+		if st, ok := rt.(*ast.StarExpr); ok {
+			rt = st.X
+		}
+		recvT = exprText(rt)
+	}
+	found := false
+	ast.Inspect(fd.Body, func(n ast.Node) bool {
+		c, ok := n.(*ast.CallExpr)
+		if !ok || found {
+			return true
+		}
+		var g *ast.FuncDecl
+		switch f := c.Fun.(type) {
+		case *ast.Ident:
+			g = funcs[f.Name]
+		case *ast.SelectorExpr:
+			if id, ok := f.X.(*ast.Ident); ok && id.Name == recvName(fd) && recvT != "" {
+				g = funcs[recvT+"."+f.Sel.Name]
+			}
+		}
+		if g != nil && g != fd && reachesCall(funcs, g, target, depth-1) {
+			found = true
+		}
+		return true
+	})
+	return found
+}
+
 func parseDirFuncs(dir string) (map[string]*ast.FuncDecl, error) {
 	fset := token.NewFileSet()
 	matches, _ := filepath.Glob(filepath.Join(dir, "*.go"))
@@ -557,6 +620,51 @@ func genShardMode(repo, out string) []string {
 		for _, m := range []struct{ key, lean string }{{"cache.Put", "wcPut"}, {"cache.Delete", "wcDelete"}} {
 			fmt.Fprintf(&sb, "/-- write-cache `%s` returns ErrReadOnly under `readOnly()` -/\ndef %s_guardRO : Bool := %s\n", m.key, m.lean, lb(guardOf(wcFuncs, wcFuncs[m.key], "readOnly", "ErrReadOnly", 2)))
 		}
+	}
+	// life cycle of the write-cache flush loop and of a shard over the engine's maintenance cycle
+	{
+		wcFuncs, err := parseDirFuncs(filepath.Join(repo, "pkg/local_object_storage/writecache"))
+		if err != nil {
+			return append(problems, "shardMode: "+err.Error())
+		}
+		sb.WriteString("\n")
+		for _, m := range []struct{ key, lean, doc string }{
+			{"cache.Init", "wcInit", "`cache.Init` starts the background flush loop (reaches `runFlushLoop`)"},
+			{"cache.Open", "wcOpen", "`cache.Open` starts the background flush loop (reaches `runFlushLoop`)"},
+			{"cache.SetMode", "wcSetMode", "`cache.SetMode` starts the background flush loop (reaches `runFlushLoop`)"},
+		} {
+			if wcFuncs[m.key] == nil {
+				bad("%s not found", m.key)
+			}
+			fmt.Fprintf(&sb, "/-- %s -/\ndef %s_startsFlushLoop : Bool := %s\n", m.doc, m.lean, lb(reachesCall(wcFuncs, wcFuncs[m.key], "runFlushLoop", 4)))
+		}
+		if wcFuncs["cache.runFlushLoop"] == nil {
+			bad("cache.runFlushLoop not found")
+		}
+		shFuncs, err := parseDirFuncs(filepath.Join(repo, "pkg/local_object_storage/shard"))
+		if err != nil {
+			return append(problems, "shardMode: "+err.Error())
+		}
+		if shFuncs["Shard.Open"] == nil || shFuncs["Shard.Close"] == nil {
+			bad("Shard.Open / Shard.Close not found")
+		}
+		fmt.Fprintf(&sb, "/-- `Shard.Open` initializes a component or applies the shard's mode (reaches `Init`, `setMode` or `SetMode`) -/\ndef shardOpen_initsOrSetsMode : Bool := %s\n",
+			lb(reachesCall(shFuncs, shFuncs["Shard.Open"], "Init", 3) || reachesCall(shFuncs, shFuncs["Shard.Open"], "setMode", 1) || directCall(shFuncs["Shard.Open"], "SetMode")))
+		engFuncs, err := parseDirFuncs(filepath.Join(repo, "pkg/local_object_storage/engine"))
+		if err != nil {
+			return append(problems, "shardMode: "+err.Error())
+		}
+		for _, k := range []string{"StorageEngine.BlockExecution", "StorageEngine.ResumeExecution", "StorageEngine.setBlockExecErr", "StorageEngine.open", "StorageEngine.close"} {
+			if engFuncs[k] == nil {
+				bad("%s not found", k)
+			}
+		}
+		fmt.Fprintf(&sb, "/-- `StorageEngine.BlockExecution` closes every shard (reaches `Shard.Close` through `setBlockExecErr` / `close`) -/\ndef engineBlock_closesShards : Bool := %s\n",
+			lb(reachesCall(engFuncs, engFuncs["StorageEngine.BlockExecution"], "Close", 3)))
+		fmt.Fprintf(&sb, "/-- `StorageEngine.ResumeExecution` opens every shard again (reaches `Shard.Open` through `setBlockExecErr` / `open`) -/\ndef engineResume_opensShards : Bool := %s\n",
+			lb(reachesCall(engFuncs, engFuncs["StorageEngine.ResumeExecution"], "Open", 3)))
+		fmt.Fprintf(&sb, "/-- `StorageEngine.ResumeExecution` also initializes the shards or applies their modes (reaches `Init` / `SetMode`) -/\ndef engineResume_initsShards : Bool := %s\n",
+			lb(reachesCall(engFuncs, engFuncs["StorageEngine.ResumeExecution"], "Init", 3) || reachesCall(engFuncs, engFuncs["StorageEngine.ResumeExecution"], "SetMode", 3)))
 	}
 	sb.WriteString("\nend NeoFS.Gen.ShardMode\n")
 	if err := os.WriteFile(filepath.Join(out, "ShardMode.lean"), []byte(sb.String()), 0o644); err != nil {
